@@ -73,7 +73,7 @@ ASSUMPTIONS = [
 TRUSTED_BASE = ['browser_destination reference model in this file', 'vf/shims (import of auth.auth; aiohttp_session shim carries the session in phase handlers)',
                 'FakeAuthDB / FakeFlow / page renderer / Browser in this file', 'vf/sim/vloop.py (virtual time for /creating/wait)']
 SHARDS = {'quick': 1, 'thorough': 16}
-TIMEOUT = {'quick': 600, 'thorough': 3600}
+TIMEOUT = {'quick': 900, 'thorough': 3600}
 FORBIDDEN_STUBS = ()
 
 
